@@ -621,3 +621,95 @@ pub fn c07_block(nconns: usize) -> BoxedStrategy<Vec<Step>> {
 pub fn c07_history(nconns: usize, max_blocks: usize) -> BoxedStrategy<Vec<Step>> {
     proptest::collection::vec(c07_block(nconns), 1..=max_blocks).prop_map(|b| b.concat()).boxed()
 }
+
+// ---------------------------------------------------------------------------------------
+// C02: timed histories
+// ---------------------------------------------------------------------------------------
+
+pub fn c02_history(max_len: usize) -> BoxedStrategy<Vec<Step>> {
+    let k = select(vec![bs("e1"), bs("e2"), bs("e3"), bs("e4"), bs("e5")]).boxed();
+    let v = select(vec![bs("v"), bs("7"), bs("w")]).boxed();
+    let m = select(vec![bs("a"), bs("b")]).boxed();
+    let ms = select(vec![bs("40"), bs("80"), bs("150"), bs("300"), bs("600"), bs("1000"), bs("1500"), bs("10000000")]).boxed();
+    let secs = select(vec![bs("1"), bs("1"), bs("2"), bs("10000")]).boxed();
+    let sleep = prop_oneof![
+        6 => select(vec![2u64, 10, 30, 50, 90]),
+        4 => select(vec![160u64, 320]),
+        1 => Just(1100u64),
+    ];
+    let ttl_set = prop_oneof![
+        4 => (k.clone(), v.clone(), ms.clone()).prop_map(|(k, v, t)| vec![bs("SET"), k, v, bs("PX"), t]),
+        2 => (k.clone(), v.clone(), secs.clone()).prop_map(|(k, v, t)| vec![bs("SET"), k, v, bs("EX"), t]),
+        1 => (k.clone(), v.clone(), ms.clone()).prop_map(|(k, v, t)| vec![bs("SET"), k, v, bs("NX"), bs("PX"), t]),
+        1 => (k.clone(), v.clone(), ms.clone()).prop_map(|(k, v, t)| vec![bs("SET"), k, v, bs("XX"), bs("PX"), t]),
+        2 => (k.clone(), secs.clone(), v.clone()).prop_map(|(k, t, v)| vec![bs("SETEX"), k, t, v]),
+        3 => (k.clone(), ms.clone(), v.clone()).prop_map(|(k, t, v)| vec![bs("PSETEX"), k, t, v]),
+        6 => (k.clone(), ms.clone()).prop_map(|(k, t)| vec![bs("PEXPIRE"), k, t]),
+        2 => (k.clone(), secs.clone()).prop_map(|(k, t)| vec![bs("EXPIRE"), k, t]),
+    ];
+    let create = prop_oneof![
+        3 => (k.clone(), v.clone()).prop_map(|(k, v)| vec![bs("SET"), k, v]),
+        2 => (k.clone(), m.clone()).prop_map(|(k, m)| vec![bs("RPUSH"), k, m]),
+        2 => (k.clone(), m.clone()).prop_map(|(k, m)| vec![bs("LPUSH"), k, m]),
+        2 => (k.clone(), m.clone()).prop_map(|(k, m)| vec![bs("SADD"), k, m]),
+        2 => (k.clone(), m.clone(), v.clone()).prop_map(|(k, m, v)| vec![bs("HSET"), k, m, v]),
+        2 => (k.clone(), m.clone()).prop_map(|(k, m)| vec![bs("ZADD"), k, bs("1"), m]),
+        2 => (k.clone(), m.clone()).prop_map(|(k, m)| vec![bs("XADD"), k, bs("*"), m, bs("x")]),
+        1 => (k.clone(), v.clone()).prop_map(|(k, v)| vec![bs("SETNX"), k, v]),
+        1 => (k.clone(), v.clone()).prop_map(|(k, v)| vec![bs("SET"), k, v, bs("NX")]),
+        1 => (k.clone(), v.clone()).prop_map(|(k, v)| vec![bs("SET"), k, v, bs("XX")]),
+        2 => k.clone().prop_map(|k| vec![bs("INCR"), k]),
+        2 => (k.clone(), v.clone()).prop_map(|(k, v)| vec![bs("APPEND"), k, v]),
+        1 => (k.clone(), v.clone()).prop_map(|(k, v)| vec![bs("SETRANGE"), k, bs("1"), v]),
+        1 => (k.clone(), m.clone()).prop_map(|(k, m)| vec![bs("HINCRBY"), k, m, bs("1")]),
+    ];
+    let clear_move = prop_oneof![
+        4 => k.clone().prop_map(|k| vec![bs("PERSIST"), k]),
+        2 => (k.clone(), v.clone()).prop_map(|(k, v)| vec![bs("GETSET"), k, v]),
+        2 => (k.clone(), v.clone()).prop_map(|(k, v)| vec![bs("MSET"), k, v]),
+        4 => (k.clone(), k.clone()).prop_map(|(a, b)| vec![bs("RENAME"), a, b]),
+        2 => (k.clone(), k.clone()).prop_map(|(a, b)| vec![bs("RENAMENX"), a, b]),
+        2 => k.clone().prop_map(|k| vec![bs("DEL"), k]),
+        1 => k.clone().prop_map(|k| vec![bs("LPOP"), k]),
+        1 => k.clone().prop_map(|k| vec![bs("SPOP"), k]),
+        1 => (k.clone(), m.clone()).prop_map(|(k, m)| vec![bs("SREM"), k, m]),
+        1 => (k.clone(), m.clone()).prop_map(|(k, m)| vec![bs("HDEL"), k, m]),
+        1 => (k.clone(), m.clone()).prop_map(|(k, m)| vec![bs("ZREM"), k, m]),
+    ];
+    let read = prop_oneof![
+        5 => k.clone().prop_map(|k| vec![bs("GET"), k]),
+        4 => k.clone().prop_map(|k| vec![bs("EXISTS"), k]),
+        4 => k.clone().prop_map(|k| vec![bs("TYPE"), k]),
+        4 => k.clone().prop_map(|k| vec![bs("TTL"), k]),
+        5 => k.clone().prop_map(|k| vec![bs("PTTL"), k]),
+        2 => k.clone().prop_map(|k| vec![bs("STRLEN"), k]),
+        1 => k.clone().prop_map(|k| vec![bs("GETRANGE"), k, bs("0"), bs("-1")]),
+        2 => k.clone().prop_map(|k| vec![bs("LLEN"), k]),
+        1 => k.clone().prop_map(|k| vec![bs("LRANGE"), k, bs("0"), bs("-1")]),
+        2 => k.clone().prop_map(|k| vec![bs("SCARD"), k]),
+        2 => k.clone().prop_map(|k| vec![bs("HLEN"), k]),
+        2 => k.clone().prop_map(|k| vec![bs("ZCARD"), k]),
+        2 => k.clone().prop_map(|k| vec![bs("XLEN"), k]),
+        2 => (k.clone(), k.clone()).prop_map(|(a, b)| vec![bs("MGET"), a, b]),
+        2 => Just(vec![bs("KEYS"), bs("*")]),
+        2 => Just(vec![bs("DBSIZE")]),
+        1 => Just(vec![bs("SCAN"), bs("0"), bs("COUNT"), bs("1000")]),
+        1 => Just(vec![bs("RANDOMKEY")]),
+    ];
+    let step = prop_oneof![
+        8 => ttl_set.prop_map(|args| Step::Cmd { conn: 0, args }),
+        8 => create.prop_map(|args| Step::Cmd { conn: 0, args }),
+        5 => clear_move.prop_map(|args| Step::Cmd { conn: 0, args }),
+        14 => read.prop_map(|args| Step::Cmd { conn: 0, args }),
+        7 => sleep.prop_map(Step::Sleep),
+    ];
+    (proptest::collection::vec(step, 8..=max_len), 0u8..3)
+        .prop_map(|(mut s, tail)| {
+            if tail == 0 {
+                // two sweeper periods, then the final dump: nothing without an elapsed TTL may vanish
+                s.push(Step::Sleep(2200));
+            }
+            s
+        })
+        .boxed()
+}
